@@ -13,7 +13,7 @@ namespace GoZero.C14.Props
 open GoZero.C14 GoZero.C14.Spec
 
 /-- an environment that lets the request through -/
-def envOk : Env := { ctxDone := false, brkAllow := true, connOk := true, userAccept := false }
+def envOk : Env := { ctxDone := false, brkAllow := true, connOk := true, userAccept := {} }
 
 /-- **One Begin, the body's statements, exactly one Commit/Rollback — or nothing.**
 If the transaction can be opened the driver sees exactly `<Begin attempts answered ErrBadConn>, Begin,
@@ -177,6 +177,7 @@ theorem cancelled_body_still_ends (env : Env) (f : Faults) (b : Body) (k : Nat)
           cases hk : s.kind <;> simp [hk] at he
           · obtain ⟨h1, h2⟩ := he; exact ⟨j, !s.fails, Or.inl h2, by omega⟩
           · obtain ⟨h1, h2⟩ := he; exact ⟨j, !s.fails, Or.inr h2, by omega⟩
+          · obtain ⟨h1, h2⟩ := he; exact ⟨j, !s.fails, Or.inr h2, by omega⟩
         unfold runStmts at he
         split at he
         · exact hev e he
@@ -208,9 +209,9 @@ theorem panic_is_error_and_rolled_back (env : Env) (f : Faults) (b : Body)
     (∀ c, Ev.commit c ∉ (transactCtx env f b).log) ∧
     (f.rollbackPanics = false →
       (∃ e, (transactCtx env f b).ret = some e ∧ e.mentions .panic = true ∧
-            (f.rollback = false → .rollback ∈ e.is)) ∧
+            (f.rollback = false → .rollback f.rollbackCls ∈ e.is)) ∧
       (transactCtx env f b).escaped = false ∧
-      (transactCtx env f b).mark = some false) := by
+      (transactCtx env f b).mark = some (!f.rollback && clsAcceptable env.userAccept f.rollbackCls)) := by
   have hall := runBody_all b
   have hn : ∀ c, Ev.commit c ∉ (runBody b).1 := fun c => not_mem_of_all hall _ rfl
   refine ⟨?_, ?_, ?_⟩
@@ -227,7 +228,7 @@ theorem panic_is_error_and_rolled_back (env : Env) (f : Faults) (b : Body)
 
 example : (transactCtx envOk { begin := true, commit := true, rollback := false }
     { stmts := [⟨.exec, false, false⟩], fin := .panic }).ret
-    = some { is := [.rollback], says := [.panic] } := by decide
+    = some { is := [.rollback .plain], says := [.panic] } := by decide
 
 /-- **The returned error is nil only when the commit succeeded** — and exactly then:
 nil ⇔ a successful Commit reached the driver ⇔ opened ∧ body returned nil ∧ the driver accepted Commit
@@ -249,7 +250,7 @@ theorem nil_only_if_commit_ok (env : Env) (f : Faults) (b : Body) :
       simp_all [endEvent, mem_badPrefix, Faults.commitOk, Faults.rollbackOk]
 
 example : (transactCtx envOk { begin := true, commit := false, rollback := true }
-    { stmts := [], fin := .ok }).ret = some (Err.of .commit) := by decide
+    { stmts := [], fin := .ok }).ret = some (Err.of (.commit .plain)) := by decide
 /-- the context expired before the last statement, the body ignored every error and returned nil: committed, nil -/
 example : transactCtx envOk { begin := true, commit := true, rollback := true }
     { stmts := [⟨.exec, false, false⟩, ⟨.query, false, false⟩], fin := .ok, cancelAt := some 1, deadline := true }
@@ -261,9 +262,11 @@ example : transactCtx envOk { begin := true, commit := true, rollback := true }
 the returned chain (`errors.Is`), respectively is the panic value the call leaves with. -/
 theorem termination_failures_reported (env : Env) (f : Faults) (b : Body) :
     (Ev.commit false ∈ (transactCtx env f b).log →
-        ∃ e, (transactCtx env f b).ret = some e ∧ Src.commit ∈ e.is) ∧
+        ∃ e, (transactCtx env f b).ret = some e ∧
+          Src.commit (if f.commitPanics then .plain else f.commitCls) ∈ e.is) ∧
     (Ev.rollback false ∈ (transactCtx env f b).log →
-        ∃ e, (transactCtx env f b).ret = some e ∧ Src.rollback ∈ e.is) := by
+        ∃ e, (transactCtx env f b).ret = some e ∧
+          Src.rollback (if f.rollbackPanics then .plain else f.rollbackCls) ∈ e.is) := by
   have hall := runBody_all b
   have hn1 : Ev.commit false ∉ (runBody b).1 := not_mem_of_all hall _ rfl
   have hn2 : Ev.rollback false ∉ (runBody b).1 := not_mem_of_all hall _ rfl
@@ -278,7 +281,7 @@ theorem termination_failures_reported (env : Env) (f : Faults) (b : Body) :
 
 example : (transactCtx envOk { begin := true, commit := true, rollback := false }
     { stmts := [], fin := .err .noRows }).ret
-    = some { is := [.rollback], says := [.body .noRows] } := by decide
+    = some { is := [.rollback .plain], says := [.body .noRows] } := by decide
 
 /-- **A panic of the driver's own Commit / Rollback is the only way the call does not return**: it happens
 exactly when a transaction was opened and the ending call the body's outcome selects panics; the driver saw
@@ -290,9 +293,9 @@ theorem driver_panic_escapes (env : Env) (f : Faults) (b : Body) :
                               ((runBody b).2 ≠ .nil ∧ f.rollbackPanics = true)))) ∧
     ((transactCtx env f b).escaped = true →
       (transactCtx env f b).mark = none ∧
-      (((runBody b).2 = .nil ∧ (transactCtx env f b).ret = some (Err.of .commit) ∧
+      (((runBody b).2 = .nil ∧ (transactCtx env f b).ret = some (Err.of (.commit .plain)) ∧
           (transactCtx env f b).log.getLast? = some (.commit false)) ∨
-       ((runBody b).2 ≠ .nil ∧ (transactCtx env f b).ret = some (Err.of .rollback) ∧
+       ((runBody b).2 ≠ .nil ∧ (transactCtx env f b).ret = some (Err.of (.rollback .plain)) ∧
           (transactCtx env f b).log.getLast? = some (.rollback false)))) := by
   have hne := runBody_ne_notRun b
   constructor
@@ -314,14 +317,14 @@ theorem driver_panic_escapes (env : Env) (f : Faults) (b : Body) :
 example : transactCtx envOk { begin := true, commit := true, rollback := true, commitPanics := true }
     { stmts := [⟨.exec, false, true⟩], fin := .ok }
     = { log := [.begin true, .exec 0 true, .commit false], runs := 1, body := .nil,
-        ret := some (Err.of .commit), mark := none, escaped := true } := by decide
+        ret := some (Err.of (.commit .plain)), mark := none, escaped := true } := by decide
 
 /-- **The body's error is what the caller gets** when the rollback works (same identity), and is still
 told (in the message) when the rollback fails too. -/
 theorem body_error_returned (env : Env) (f : Faults) (b : Body) (e : Err)
     (ho : opened env f = true) (hb : (runBody b).2 = .err e) (hq : f.rollbackPanics = false) :
     (f.rollback = true → (transactCtx env f b).ret = some e) ∧
-    (f.rollback = false → (transactCtx env f b).ret = some { is := [.rollback], says := e.is ++ e.says }) := by
+    (f.rollback = false → (transactCtx env f b).ret = some { is := [.rollback f.rollbackCls], says := e.is ++ e.says }) := by
   rw [ret_opened env f b ho, hb, hq]
   cases f.rollback <;> simp
 
@@ -351,8 +354,11 @@ theorem breaker_told (env : Env) (f : Faults) (b : Body) :
        else if (transactCtx env f b).escaped then none
        else some (acceptable env.userAccept (transactCtx env f b).ret)) ∧
     breakerTold env.userAccept (transactCtx env f b) = true ∧
-    (Ev.begin false ∈ (transactCtx env f b).log ∨ Ev.commit false ∈ (transactCtx env f b).log ∨
-       Ev.rollback false ∈ (transactCtx env f b).log → (transactCtx env f b).mark ≠ some true) ∧
+    (Ev.begin false ∈ (transactCtx env f b).log → (transactCtx env f b).mark ≠ some true) ∧
+    (Ev.commit false ∈ (transactCtx env f b).log → (transactCtx env f b).mark =
+       if f.commitPanics then none else some (clsAcceptable env.userAccept f.commitCls)) ∧
+    (Ev.rollback false ∈ (transactCtx env f b).log → (transactCtx env f b).mark =
+       if f.rollbackPanics then none else some (clsAcceptable env.userAccept f.rollbackCls)) ∧
     ((transactCtx env f b).ret = some (Err.of .badConn) ∨ (transactCtx env f b).ret = some (Err.of .deadline) →
        (transactCtx env f b).mark ≠ some true) := by
   have hall := runBody_all b
@@ -360,18 +366,29 @@ theorem breaker_told (env : Env) (f : Faults) (b : Body) :
   have hn1 : Ev.commit false ∉ (runBody b).1 := not_mem_of_all hall _ rfl
   have hn2 : Ev.rollback false ∉ (runBody b).1 := not_mem_of_all hall _ rfl
   have hne := runBody_ne_notRun b
-  refine ⟨mark_ctx env f b, breakerTold_ctx env f b, ?_, ?_⟩
+  refine ⟨mark_ctx env f b, breakerTold_ctx env f b, ?_, ?_, ?_, ?_⟩
   · rw [mark_ctx, escaped_ctx, log_shape_ctx]
     cases ho : opened env f
     · rw [ret_not_opened env f b ho]
       unfold opened Env.admitted at ho
       cases h1 : env.ctxDone <;> cases h2 : env.brkAllow <;> cases h3 : env.connOk <;> cases h4 : f.givesUp <;>
         simp_all [Env.admitted, acceptable, Err.of, srcAcceptable, refusedBegins, mem_badPrefix]
+    · simp [mem_badPrefix, hn0, endEvent]
+      cases (runBody b).2 <;> simp
+  · rw [mark_ctx, escaped_ctx, log_shape_ctx]
+    cases ho : opened env f
+    · cases env.admitted <;> simp [refusedBegins] <;> split <;> simp [mem_badPrefix]
     · rw [ret_opened env f b ho]
       have ho' := (opened_iff env f).mp ho
-      cases h : (runBody b).2 <;> cases hc : f.commit <;> cases hr : f.rollback <;> cases hp : f.commitPanics <;>
-        cases hq : f.rollbackPanics <;>
+      cases h : (runBody b).2 <;> cases hc : f.commit <;> cases hp : f.commitPanics <;>
         simp_all [endEvent, Err.of, acceptable, srcAcceptable, mem_badPrefix, Faults.commitOk, Faults.rollbackOk]
+  · rw [mark_ctx, escaped_ctx, log_shape_ctx]
+    cases ho : opened env f
+    · cases env.admitted <;> simp [refusedBegins] <;> split <;> simp [mem_badPrefix]
+    · rw [ret_opened env f b ho]
+      have ho' := (opened_iff env f).mp ho
+      cases h : (runBody b).2 <;> cases hr : f.rollback <;> cases hq : f.rollbackPanics <;>
+        simp_all [endEvent, acceptable, srcAcceptable, mem_badPrefix, Faults.commitOk, Faults.rollbackOk]
   · have hb := breakerTold_ctx env f b
     unfold breakerTold at hb
     intro hret hm
@@ -388,6 +405,144 @@ example : transactCtx envOk { begin := true, commit := true, rollback := true }
     = { log := [.begin true, .rollback true], runs := 1, body := .err (Err.of .deadline),
         ret := some (Err.of .deadline), mark := some false } := by decide
 
+/-- a Commit refused with sql.ErrTxDone (class `txDone`): reported to the caller with its identity, and — this
+is what `acceptable` does with ErrTxDone — booked as a success by the breaker -/
+example : transactCtx envOk { begin := true, commit := false, rollback := true, commitCls := .txDone }
+    { stmts := [], fin := .ok }
+    = { log := [.begin true, .commit false], runs := 1, body := .nil, ret := some (Err.of (.commit .txDone)),
+        mark := some true } := by decide
+/-- a Rollback refused with an error only the SECOND WithAcceptable function accepts -/
+example : (transactCtx { envOk with userAccept := { a1 := true, a2 := true } }
+    { begin := true, commit := true, rollback := false, rollbackCls := .userOk2 }
+    { stmts := [], fin := .panic }).mark = some true := by decide
+example : (transactCtx { envOk with userAccept := { a1 := true } }
+    { begin := true, commit := true, rollback := false, rollbackCls := .userOk2 }
+    { stmts := [], fin := .panic }).mark = some false := by decide
+
+/-! ### the breaker wrapper never changes what the transaction core returned -/
+
+/-- `commonSqlConn.TransactCtx` is exactly `brk.DoWithAcceptableCtx(ctx, transact, db.acceptable)`. -/
+theorem transactCtx_is_wrapped_transact (env : Env) (f : Faults) (b : Body) :
+    transactCtx env f b =
+      brkDo env.ctxDone env.ctxDead env.brkAllow (acceptable env.userAccept) (transactFn env.connOk f b) := by
+  unfold transactCtx brkDo transactFn markOf
+  cases env.ctxDone <;> cases env.brkAllow <;> cases env.connOk <;> simp [acceptable, Err.of, srcAcceptable]
+
+/-- **The error returned by the wrapper is the transaction core's error, for every verdict of the breaker except
+reject** — for EVERY acceptable function `acc` (so for `db.acceptable` with any `WithAcceptable` composition, and
+whatever it answers: success, failure, or not consulted because the core left by a panic): the driver-call log,
+the body runs, the body's outcome, the returned error and the escaping panic are those of `transact`.  Only a
+context that is already done or a rejecting breaker replace it — by ctx.Err() / ErrServiceUnavailable, and then
+nothing ran.  (The seeded change C14-4 — `acceptable` applied inside the request, acceptable errors turned into
+nil — is the negation of the first conjunct.) -/
+theorem wrapper_returns_core_error (ctxDone ctxDead brkAllow : Bool) (acc : Option Err → Bool) (core : Result) :
+    (ctxDone = false → brkAllow = true →
+      (brkDo ctxDone ctxDead brkAllow acc core).ret = core.ret ∧
+      (brkDo ctxDone ctxDead brkAllow acc core).log = core.log ∧
+      (brkDo ctxDone ctxDead brkAllow acc core).runs = core.runs ∧
+      (brkDo ctxDone ctxDead brkAllow acc core).body = core.body ∧
+      (brkDo ctxDone ctxDead brkAllow acc core).escaped = core.escaped ∧
+      (brkDo ctxDone ctxDead brkAllow acc core).mark = (if core.escaped then none else some (acc core.ret))) ∧
+    (ctxDone = false → brkAllow = false →
+      brkDo ctxDone ctxDead brkAllow acc core =
+        { log := [], runs := 0, body := .notRun, ret := some (Err.of .breaker), mark := none }) ∧
+    (ctxDone = true →
+      brkDo ctxDone ctxDead brkAllow acc core =
+        { log := [], runs := 0, body := .notRun, ret := some (Err.of (ctxSrc ctxDead)), mark := none }) := by
+  refine ⟨?_, ?_, ?_⟩
+  · intro h1 h2; subst h1; subst h2; simp [brkDo]
+  · intro h1 h2; subst h1; subst h2; simp [brkDo]
+  · intro h1; subst h1; simp [brkDo]
+
+/-- … instantiated: `Transact*` returns exactly what `transact` returned whenever the request was let through,
+in particular never nil for an error the breaker finds acceptable. -/
+theorem transact_returns_core_error (env : Env) (f : Faults) (b : Body)
+    (hc : env.ctxDone = false) (ha : env.brkAllow = true) :
+    (transactCtx env f b).ret = (transactFn env.connOk f b).ret ∧
+    (transactCtx env f b).log = (transactFn env.connOk f b).log ∧
+    (transactCtx env f b).runs = (transactFn env.connOk f b).runs ∧
+    (transactCtx env f b).escaped = (transactFn env.connOk f b).escaped ∧
+    ((transactCtx env f b).mark = some true → (transactCtx env f b).ret = (transactFn env.connOk f b).ret) ∧
+    ((transactFn env.connOk f b).ret ≠ none → (transactCtx env f b).ret ≠ none) := by
+  rw [transactCtx_is_wrapped_transact]
+  have h := (wrapper_returns_core_error env.ctxDone env.ctxDead env.brkAllow (acceptable env.userAccept)
+    (transactFn env.connOk f b)).1 hc ha
+  obtain ⟨h1, h2, h3, -, h5, -⟩ := h
+  exact ⟨h1, h2, h3, h5, fun _ => h1, fun hne => by rw [h1]; exact hne⟩
+
+/-- the body returned ErrNotFound after a QueryRow that found no row: rolled back, ErrNotFound returned (not nil),
+success for the breaker -/
+example : transactCtx envOk { begin := true, commit := true, rollback := true }
+    { stmts := [⟨.exec, false, true⟩, ⟨.rowq, false, true⟩, ⟨.exec, false, true⟩], fin := .ok }
+    = { log := [.begin true, .exec 0 true, .query 1 true, .rollback true], runs := 1,
+        body := .err (Err.of (.body .noRows)), ret := some (Err.of (.body .noRows)), mark := some true } := by decide
+
+/-! ### WithAcceptable options compose -/
+
+/-- **Every installed WithAcceptable function is consulted, none is dropped**: applying any number of
+`WithAcceptable` options in order to a connection leaves `accept` nil when there are none, and otherwise a
+function that answers `f1(err) || f2(err) || …` over all of them (and the function that was there before). -/
+theorem withAcceptable_composes (fs : List (Option Err → Bool)) (cur : AccFn) (e : Option Err) :
+    (fs.foldl withAcceptable cur).map (· e) =
+      match cur with
+      | none => if fs.isEmpty then none else some (fs.any (· e))
+      | some g => some (g e || fs.any (· e)) := by
+  induction fs generalizing cur with
+  | nil => cases cur <;> simp
+  | cons f fs ih =>
+    rw [List.foldl_cons, ih]
+    cases cur <;> simp [withAcceptable, Bool.or_assoc]
+
+/-- the model's user function of a configuration is that composition of the installed functions -/
+theorem uaFn_is_composition (ua : UA) (e : Option Err) :
+    (uaFn ua).map (· e) = (ua.installed.foldl withAcceptable none).map (· e) := by
+  obtain ⟨a1, a2⟩ := ua
+  cases a1 <;> cases a2 <;> simp [uaFn, UA.installed, withAcceptable, userFn1, userFn2]
+
+example : (([userFn1, userFn2].foldl withAcceptable none).map (· (some (Err.of (.body .userOk2))))) = some true := by
+  decide
+
+/-! ### every anchored entry point -/
+
+/-- the entry points the property anchors: `commonSqlConn.Transact` / `TransactCtx`, `sqlc.CachedConn.Transact` /
+`TransactCtx` (delegating), and `Transact[Ctx]` of a connection made from a transaction's session
+(`NewSqlConnFromSession`, `CachedConn.WithSession`, also over `NewSessionFromTx`) -/
+inductive Entry
+  | transact | transactCtx | cachedTransact | cachedTransactCtx | nested | nestedCtx
+  deriving DecidableEq, Repr
+
+/-- what each entry point does, read off its wiring (Tie: tie_wire_*): the ctx-less ones call `TransactCtx` with
+`context.Background()` — never done, nothing to cancel under the body —, the cached ones delegate unchanged, the
+nested ones return `errCantNestTx` without touching anything. -/
+def runEntry (ep : Entry) (env : Env) (f : Faults) (b : Body) : Result :=
+  match ep with
+  | .transactCtx | .cachedTransactCtx => transactCtx env f b
+  | .transact | .cachedTransact =>
+    transactCtx { env with ctxDone := false, ctxDead := false } f { b with cancelAt := none }
+  | .nested | .nestedCtx => { log := [], runs := 0, body := .notRun, ret := some (Err.of .nest) }
+
+/-- **End to end, every clause at every entry point**: call site → (delegation) → breaker wrapper →
+`transact` → `transactOnConn`: all eleven clauses of the property and the breaker clause hold of what the entry
+point does, for every environment, fault plan and body. -/
+theorem every_entry_point_holds (ep : Entry) (env : Env) (f : Faults) (b : Body) :
+    holds (runEntry ep env f b) = true ∧ violated (runEntry ep env f b) = [] ∧
+    breakerTold env.userAccept (runEntry ep env f b) = true := by
+  cases ep
+  case nested =>
+    exact ⟨by simp only [runEntry]; decide, by simp only [runEntry]; decide, by simp [runEntry, breakerTold]⟩
+  case nestedCtx =>
+    exact ⟨by simp only [runEntry]; decide, by simp only [runEntry]; decide, by simp [runEntry, breakerTold]⟩
+  all_goals
+    first
+    | exact ⟨holds_ctx env f b, violated_nil_of_holds _ (holds_ctx env f b), breakerTold_ctx env f b⟩
+    | exact ⟨holds_ctx _ f _, violated_nil_of_holds _ (holds_ctx _ f _),
+        breakerTold_ctx { env with ctxDone := false, ctxDead := false } f _⟩
+
+example : runEntry .cachedTransact { envOk with ctxDone := true } { begin := true, commit := true, rollback := true }
+    { stmts := [⟨.exec, false, true⟩], fin := .ok, cancelAt := some 0 }
+    = { log := [.begin true, .exec 0 true, .commit true], runs := 1, body := .nil, ret := none, mark := some true } := by
+  decide
+
 /-- **The executable monitor is sound**: every clause the driver evaluates on the real code's observations
 holds of the model, for `TransactCtx` and for `transactOnConn`. -/
 theorem monitor_sound (env : Env) (f : Faults) (b : Body) :
@@ -397,7 +552,7 @@ theorem monitor_sound (env : Env) (f : Faults) (b : Body) :
   ⟨holds_ctx env f b, holds_onConn f b, violated_nil_of_holds _ (holds_ctx env f b),
    violated_nil_of_holds _ (holds_onConn f b), breakerTold_ctx env f b⟩
 
-example : holds (transactCtx { envOk with userAccept := true } { begin := true, commit := false, rollback := false }
+example : holds (transactCtx { envOk with userAccept := { a1 := true } } { begin := true, commit := false, rollback := false }
     { stmts := [⟨.query, true, false⟩, ⟨.nest, true, false⟩], fin := .err .userOk }) = true := by decide
 
 /-- the monitor is not vacuous: what the seeded change C14-2 does (body returned an error under a done context,
